@@ -780,6 +780,7 @@ def _expansion_job(name, flags, n_pops, max_level_strings=40000):
     ref = ref_for(name, sb, sc_)
     out = {"name": name, "flags": flags, "problem": None, "preterminals": 0, "guesses": 0, "markov_levels": 0, "markov_strings": 0}
     rec = guesser.LineRecorder()
+    shapes = {tuple(b["replacements"]) for b in ref.base}
     with guesser.streams(rec, guesser.Sink()):
         pcfg = guesser.load(shipped_dir(name), sb, sc_, name=name)
         q = PcfgQueue(pcfg)
@@ -789,6 +790,9 @@ def _expansion_job(name, flags, n_pops, max_level_strings=40000):
                 break
             pt = tuple(tuple(x) for x in item["pt"])
             is_m = len(pt) == 1 and pt[0][0] == "M"
+            if tuple(x[0] for x in pt) not in shapes:
+                out["problem"] = ("preterminal_is_not_a_derivation_of_the_ruleset", {"pt": repr(pt)[:200]})
+                return out
             if is_m:
                 grp = ref.vars["M"][pt[0][1]]
                 if len(grp["values"]) != 1:
